@@ -102,8 +102,12 @@ Proof.
 Qed.
 Theorem IS_functions x v : eval x = Ret v ->
   eval (ECall FISERROR [x]) = Ret (VBool (p_ISERROR v)) /\ eval (ECall FISERR [x]) = Ret (VBool (p_ISERR v)) /\
-  eval (ECall FISNA [x]) = Ret (VBool (p_ISNA v)) /\ eval (ECall FERRORTYPE [x]) = Ret (error_type v).
-Proof. intros Ex. repeat split; rewrite eval_call; cbn [eval_list]; rewrite Ex; reflexivity. Qed.
+  eval (ECall FISNA [x]) = Ret (VBool (p_ISNA v)) /\
+  ((forall l, v <> VList l) -> eval (ECall FERRORTYPE [x]) = Ret (error_type v)).
+Proof.
+  intros Ex. repeat split; try (rewrite eval_call; cbn [eval_list]; rewrite Ex; reflexivity).
+  intros NL. rewrite eval_call; cbn [eval_list]; rewrite Ex. destruct v; try reflexivity. exfalso. eapply NL. reflexivity.
+Qed.
 Theorem ISERROR_is_ISERR_or_ISNA v : p_ISERROR v = p_ISERR v || p_ISNA v.
 Proof. exact (ISERROR_split v). Qed.
 Theorem ERROR_TYPE_table :
